@@ -451,12 +451,6 @@ class Compiler(object):
                 if resolved_member['type'] == 'OCTET STRING':
                     self.pre_process_default_value_octet_string(member)
 
-                if resolved_member['type'] == 'ENUMERATED' and self._numeric_enums:
-                    for key, value in resolved_member['values']:
-                        if key == member['default']:
-                            member['default'] = value
-                            break
-
     def pre_process_default_value_bit_string(self, member, resolved_member):
         default = member['default']
 
@@ -900,7 +894,8 @@ class Compiler(object):
 
         if 'default' in member:
             compiled_member = self.copy(compiled_member)
-            compiled_member.set_default(member['default'])
+            compiled_member.set_default(self.get_default_value(member,
+                                                               module_name))
 
         if 'size' in member:
             compiled_member = self.copy(compiled_member)
@@ -908,6 +903,28 @@ class Compiler(object):
                                                                 module_name))
 
         return compiled_member
+
+    def get_default_value(self, member, module_name):
+        """Returns the default value of given member. The value of an
+        enumeration is its number if numeric enumerations are
+        selected. The specification itself is left untouched, as it
+        may be compiled again with other options.
+
+        """
+
+        default = member['default']
+
+        if self._numeric_enums:
+            resolved_member = self.resolve_type_descriptor(member,
+                                                           module_name)
+
+            if resolved_member['type'] == 'ENUMERATED':
+                for value in resolved_member['values']:
+                    if value != EXTENSION_MARKER and value[0] == default:
+                        default = value[1]
+                        break
+
+        return default
 
     def get_size_range(self, type_descriptor, module_name):
         """Returns a tuple of the minimum and maximum values allowed according
